@@ -60,4 +60,10 @@ def cells(tier):
                 out.append(Cell(pid=PID, cid='C08/truncated/%s/%s%s' % (doc, part, '/bytes' if by else ''),
                                 harness='h_classify:truncation_cell', params=P, sym=[('n', 'int')], pre=pre,
                                 timeout=max(T, 120), cost=40))
+    # "the same from a file, a string or bytes": real files and the real parser on six concrete encodings
+    # (document picked by a solver-chosen index: enumeration by forking); shared with C18
+    from .h_collect import SOURCE_DOCS
+    out.append(Cell(pid=PID, cid='C08/sources/file-bytes-str-s3', harness='h_collect:sources_cell', params={},
+                    sym=[('i', 'int')], pre=['0 <= i < %d' % len(SOURCE_DOCS)], stubs=(), timeout=T, cost=3,
+                    example={'i': 2}))
     return out
